@@ -71,6 +71,10 @@ class Device(object):
     if cmd == 'OPEN':
       remote = 100 + a0
       self.enqueue('OKAY', remote, a0)
+      if self.on_open:
+        self.on_open(a0, remote)       # e.g. the service starts talking right behind its OKAY
+        # ... and the USB write of the OPEN itself returns late: whoever reads the connection meanwhile sees both
+        time.sleep(0.05)
     elif cmd == 'WRTE':
       # a0 = host local id, a1 = our (remote) id
       if len(data) > MAXDATA:
@@ -131,13 +135,26 @@ def scenario(scripts, merge, writer):
     dev = Device(ue, libusb1)
     conn = ap.AdbConnection(am.AdbTransportAdapter(dev), MAXDATA, 'device:ser:banner')
     streams = []
-    for s in range(len(scripts)):
+    late = isinstance(writer, dict) and writer.get('late_open')
+    for s in range(1 if late else len(scripts)):
       st = conn.open_stream('svc%d' % s, timeout_ms=100)
       if st is None:
         return {'error': 'open failed'}
       streams.append(st)
     ids = [(st._transport.local_id, st._transport.remote_id) for st in streams]  # pylint: disable=protected-access
+    if late:
+      # the last stream is opened by its own thread while the reader of stream 0 is already at work; the device sends
+      # that stream's data right behind the OKAY that opens it
+      def on_open(local, remote):
+        for item in scripts[-1]:
+          if item == 'CLSE':
+            dev.enqueue('CLSE', remote, local)
+          else:
+            dev.enqueue('WRTE', remote, local, item)
+      dev.on_open = on_open
     for s, item in merge:
+      if late and s == len(scripts) - 1:
+        continue
       local, remote = ids[s]
       if item == 'CLSE':
         dev.enqueue('CLSE', remote, local)
@@ -168,7 +185,7 @@ def scenario(scripts, merge, writer):
       res['end'][s] = end
 
     wopts = writer if isinstance(writer, dict) else {}
-    wdata = wopts['data'] if wopts else writer
+    wdata = wopts.get('data') if wopts else writer
     writers = [wdata] if isinstance(wdata, str) else list(wdata or [])
     wres = {}
     wtime = {}
@@ -184,7 +201,24 @@ def scenario(scripts, merge, writer):
         wres[k] = 'error:%s:%s' % (type(e).__name__, str(e)[:80])
       wtime[k] = time.monotonic() - t0
 
-    ths = [threading.Thread(target=reader, args=(s,), name='r%d' % s) for s in range(len(scripts))]
+    def open_then_read(s):
+      try:
+        st = conn.open_stream('svc%d' % s, timeout_ms=100)
+      except Exception as e:  # pylint: disable=broad-except
+        st = None
+        res['end'][s] = 'error:open:%s:%s' % (type(e).__name__, str(e)[:60])
+      if st is None:
+        res['read'][s] = ''
+        res['end'].setdefault(s, 'open-failed')
+        ids.append((0, 0))
+        return
+      streams.append(st)
+      ids.append((st._transport.local_id, st._transport.remote_id))  # pylint: disable=protected-access
+      reader(s)
+
+    ths = [threading.Thread(target=reader, args=(s,), name='r%d' % s) for s in range(len(streams))]
+    if late:
+      ths.append(threading.Thread(target=open_then_read, args=(len(scripts) - 1,), name='opener'))
     for k in range(len(writers)):
       ths.append(threading.Thread(target=do_write, args=(k,), name='w%d' % k if k else 'w'))
     for t in ths:
@@ -236,7 +270,7 @@ def check(cfg):
   wopts = writer if isinstance(writer, dict) else {}
   wspec = writer
   if wopts:
-    writer = wopts['data']
+    writer = wopts.get('data')
 
   def chk(ex):
     rep = {'part': 'streams', 'cfg': [scripts, merge, wspec], 'choices': ex.choices}
@@ -317,6 +351,9 @@ def configs(tier):
   # two threads writing to the same stream (at most one unacknowledged WRTE at any time), without and with a reader
   none_s = [[]]
   out.append((none_s, [], ['01', '23'], 1 if tier == 'quick' else 2))
+  # second stream opened while the first stream's reader is running; its data follows its OKAY at once
+  lo = [['1', '2'], ['a', 'b', 'CLSE']]
+  out.append((lo, merges([lo[0], []])[0], {'late_open': True}, 1 if tier == 'quick' else 2))
   # a device that needs 200 ms per acknowledgement, three chunks, 300 ms for the whole write
   out.append((none_s, [], {'data': '0123456789ab', 'ack_delay': 0.2, 'timeout_ms': 300}, 0 if tier == 'quick' else 1))
   if tier == 'thorough':
